@@ -1,16 +1,24 @@
 (* C17 - boolean checkers evaluated on what haptools.clump wrote / returned.
    clump relation: the rows of the .clump file (index ID, member IDs);
    computeld relation: the r2 returned by ComputeLD. *)
-From HV Require Import Prelude PearsonQ C17_Model.
+From HV Require Import Prelude PearsonQ Stats C17_Model.
 From Coq Require Import QArith.
 Open Scope Z_scope.
 
 (* ---- clump ------------------------------------------------------------------ *)
 
-Definition orow := (Z * list Z)%type.
+(* one variant as the .clump file prints it: ID, CHROM, POS, P (the exact value of the printed
+   float), VARTYPE (0 SNP / 1 STR) - the five columns of a row, and the text of each member *)
+Definition vrow := (Z * Z * Z * Q * Z)%type.
+Definition orow := (vrow * list vrow)%type.
+Definition irow := (Z * list Z)%type.                      (* index ID, member IDs *)
 
 Record ccase := mkcc {
   cc_cfg : cfg;
+  cc_kb : PrimFloat.float;          (* clump_kb as the code receives it *)
+  (* the decimal the user typed for --clump-kb (the float64 it parses to is cc_kb); equal to the
+     exact value of cc_kb when kb was given as a float *)
+  cc_kbdec : Q;
   (* Exact mode only: the r2 ComputeLD returned for (index ID, candidate ID), recorded from the run *)
   cc_r2tab : list (Z * Z * option Q);
   cc_obs : res (list orow)
@@ -25,23 +33,44 @@ Definition tab_oracle (tab : list (Z * Z * option Q)) (iv c : svar) (gc gi : lis
 Definition oracle_of (k : ccase) :=
   if k_exact (cc_cfg k) then tab_oracle (cc_r2tab k) else pearson_oracle.
 
-Definition ids_of (cl : list clump) : list orow :=
+Definition vrow_of (v : svar) : vrow := (sv_id v, sv_chrom v, sv_pos v, sv_p v, sv_type v).
+Definition vrow_id (r : vrow) : Z := fst (fst (fst (fst r))).
+Definition rows_of (cl : list clump) : list orow :=
+  map (fun c : clump => (vrow_of (fst c), map vrow_of (snd c))) cl.
+Definition ids_of (cl : list clump) : list irow :=
   map (fun c : clump => (sv_id (fst c), map sv_id (snd c))) cl.
+Definition row_ids (r : orow) : irow := (vrow_id (fst r), map vrow_id (snd r)).
 
 Definition model_clump (k : ccase) : res (list orow) :=
-  match clumpstr (oracle_of k) (cc_cfg k) with Ok cl => Ok (ids_of cl) | Err e => Err e end.
+  match clumpstr (oracle_of k) (win_float (cc_kb k)) (cc_cfg k) with Ok cl => Ok (rows_of cl) | Err e => Err e end.
 
-Definition orow_eqb (a b : orow) : bool := (fst a =? fst b) && list_eqb Z.eqb (snd a) (snd b).
+Definition vrow_eqb (a b : vrow) : bool :=
+  let '(i, c, p, pv, t) := a in let '(i', c', p', pv', t') := b in
+  (i =? i') && (c =? c') && (p =? p') && Qeq_bool pv pv' && (t =? t').
+Definition orow_eqb (a b : orow) : bool := vrow_eqb (fst a) (fst b) && list_eqb vrow_eqb (snd a) (snd b).
+
+(* the float model of the window against the mathematical test, on every pair of loaded variants:
+   |d|/1000 <_float64 kb implies |d|/1000 < kb over Q, and the two differ only where the float64
+   quotient |d|/1000 rounds to kb itself (a statement about IEEE arithmetic, evaluated per case:
+   it is not proved here for all inputs) *)
+Definition window_link (kb : PrimFloat.float) (st : list svar) : bool :=
+  match f2q kb with
+  | None => true
+  | Some kq =>
+      forallb (fun iv => forallb (fun c =>
+        let f := win_float kb iv c in let m := win_q kq iv c in
+        (negb f || m) && (negb m || f || PrimFloat.eqb (dist_kb iv c) kb)) st) st
+  end.
 
 (* the property, checked on the observed rows against the input alone *)
 
 Definition eligible (p1 : Q) (v : svar) : bool := Qlt_bool (sv_p v) p1 && Qlt_bool (sv_p v) 1.
+(* "p below the index threshold" read literally *)
+Definition below_p1 (p1 : Q) (v : svar) : bool := Qlt_bool (sv_p v) p1.
 
 Definition memZ (x : Z) (l : list Z) : bool := existsb (Z.eqb x) l.
 Fixpoint nodupb (l : list Z) : bool :=
   match l with [] => true | a :: r => negb (memZ a r) && nodupb r end.
-Definition same_set (a b : list Z) : bool :=
-  forallb (fun x => memZ x b) a && forallb (fun x => memZ x a) b && nodupb a.
 
 (* split the remaining table at the variant with the given ID *)
 Fixpoint split_at (x : Z) (l : list svar) : option (list svar * svar * list svar) :=
@@ -53,43 +82,51 @@ Fixpoint split_at (x : Z) (l : list svar) : option (list svar * svar * list svar
                    | None => None end
   end.
 
-(* the members of one clump: every not-yet-clumped variant in the window is listed iff it passes
-   the r2 test (a test the run did not record - Exact mode - constrains nothing), everything
-   listed is a not-yet-clumped variant in the window, nothing is listed twice *)
-Definition members_ok (pass : svar -> svar -> option bool) (iv : svar) (kb : Q) (st : list svar) (ms : list Z)
-  : bool :=
-  forallb (fun c => negb (in_window iv kb c)
-                    || match pass iv c with
-                       | Some b => Bool.eqb (memZ (sv_id c) ms) b
-                       | None => true end) st
-  && forallb (fun x => existsb (fun c => (sv_id c =? x) && in_window iv kb c) st) ms
+(* the members of one clump.  Two window predicates: [wlo iv c] = c is strictly within the window
+   under every reading of "the user's kb", [whi iv c] = under some reading (see holds_clump; the
+   two coincide except at a distance equal to the decimal typed).  A not-yet-clumped variant that
+   is inside for sure is listed iff it passes the r2 test; one outside for sure is not listed; one
+   in between may be listed only if it passes; a test the run did not record (Exact mode)
+   constrains nothing; every listed ID is that of a not-yet-clumped variant; nothing is listed
+   twice *)
+Definition members_ok (pass : svar -> svar -> option bool) (wlo whi : svar -> svar -> bool)
+           (iv : svar) (st : list svar) (ms : list Z) : bool :=
+  forallb (fun c =>
+     let listed := memZ (sv_id c) ms in
+     if wlo iv c then match pass iv c with Some b => Bool.eqb listed b | None => true end
+     else if whi iv c then match pass iv c with Some b => negb listed || b | None => true end
+     else negb listed) st
+  && forallb (fun x => existsb (fun c => sv_id c =? x) st) ms
   && nodupb ms.
 
-Fixpoint greedy_okb (p1 kb : Q) (pass : svar -> svar -> option bool) (st : list svar) (obs : list orow) : bool :=
+(* [ei]: what an index must satisfy (and the set over which it is minimal / first among ties);
+   [es]: what must not be left when the file ends *)
+Fixpoint greedy_okb (ei es : svar -> bool) (wlo whi : svar -> svar -> bool)
+         (pass : svar -> svar -> option bool) (st : list svar) (obs : list irow) : bool :=
   match obs with
-  | [] => forallb (fun v => negb (eligible p1 v)) st          (* stops only when no index is left *)
+  | [] => forallb (fun v => negb (es v)) st                    (* stops only when no index is left *)
   | (i, ms) :: rest =>
       match split_at i st with
       | None => false                                          (* not a not-yet-clumped variant *)
       | Some (pre, iv, post) =>
-          eligible p1 iv
-          && forallb (fun v => negb (eligible p1 v) || Qle_bool (sv_p iv) (sv_p v)) st      (* smallest p *)
-          && forallb (fun v => negb (eligible p1 v) || Qlt_bool (sv_p iv) (sv_p v)) pre     (* file order on ties *)
-          && members_ok pass iv kb st ms
-          && greedy_okb p1 kb pass
+          ei iv
+          && forallb (fun v => negb (ei v) || Qle_bool (sv_p iv) (sv_p v)) st      (* smallest p *)
+          && forallb (fun v => negb (ei v) || Qlt_bool (sv_p iv) (sv_p v)) pre     (* file order on ties *)
+          && members_ok pass wlo whi iv st ms
+          && greedy_okb ei es wlo whi pass
                (filter (fun v => negb (memZ (sv_id v) (i :: ms))) st) rest
       end
   end.
 
 (* no variant in two clumps (as index or member) *)
-Definition all_ids (obs : list orow) : list Z := flat_map (fun r : orow => fst r :: filter (fun x => negb (x =? fst r)) (snd r)) obs.
+Definition all_ids (obs : list irow) : list Z := flat_map (fun r : irow => fst r :: filter (fun x => negb (x =? fst r)) (snd r)) obs.
 
 (* the quantifier: both tables load, IDs are distinct, every variant has exactly one
-   genotype record, SNP genotypes are complete and biallelic, p1 <= 1 *)
+   genotype record, SNP genotypes are complete and biallelic, kb is finite *)
 Definition stats_of (k : cfg) : option (list svar) :=
   match opt_load (k_hdr_snp k) (k_fields k) (k_p2 k) 0 (k_rows_snp k),
         opt_load (k_hdr_str k) (k_fields k) (k_p2 k) 1 (k_rows_str k) with
-  | Ok a, Ok b => Some (a ++ b)
+  | Ok a, Ok b => Some (rekey 0 (a ++ b))
   | _, _ => None
   end.
 
@@ -103,36 +140,52 @@ Definition passb (k : ccase) (gts : list gent) (iv c : svar) : option bool :=
   | _, _ => None
   end.
 
+Definition Qmin_b (a b : Q) : Q := if Qle_bool a b then a else b.
+Definition Qmax_b (a b : Q) : Q := if Qle_bool a b then b else a.
+
+(* "strictly within the kb window": |dpos| / 1000 < kb, decided over the rationals.  The user's kb
+   is the decimal typed (cc_kbdec) and the float64 it parses to (cc_kb, exact value kq); a variant
+   strictly within under both readings must be listed (if its r2 passes), one strictly within
+   under neither must not be; where the readings differ - the distance equals the decimal typed
+   and the float64 lies above it, e.g. --clump-kb 0.1 and 100 bp - nothing is demanded.
+   Index eligibility: an index has p < p1 and is minimal / first among those (the property's
+   words); the file may end only when no variant with p < p1 and p < 1 is left (for p1 <= 1 the
+   same set; DESIGN.md section 10 for p1 > 1). *)
 Definition holds_clump (k : ccase) : bool :=
   let c := cc_cfg k in
   if negb (Bool.eqb (is_some (k_rows_snp c)) (is_some (k_snps c))
            && Bool.eqb (is_some (k_rows_str c)) (is_some (k_strs c))
            && (is_some (k_snps c) || is_some (k_strs c))
-           && negb (k_exact c && is_some (k_rows_str c))
-           && Qle_bool (k_p1 c) 1) then true else
+           && negb (k_exact c && is_some (k_rows_str c))) then true else
   if match k_snps c with Some a => existsb snp_calls_bad (gs_vars a) | None => false end then true else
-  match stats_of c, merged_gts (k_snps c) (k_strs c) with
-  | Some st, Ok gts =>
+  match stats_of c, merged_gts (k_snps c) (k_strs c), f2q (cc_kb k) with
+  | Some st, Ok gts, Some kq =>
       if negb (nodupb (map sv_id st)) then true else
       if negb (forallb (fun v => match load_variant gts v with Ok _ => true | Err _ => false end) st) then true else
       match cc_obs k with
       | Err e => e =? E_Unobserved                 (* raises or does not terminate (Err 12) *)
       | Ok obs =>
-          greedy_okb (k_p1 c) (k_kb c) (passb k gts) st obs
-          && nodupb (all_ids obs)
+          greedy_okb (below_p1 (k_p1 c)) (eligible (k_p1 c))
+                     (win_q (Qmin_b kq (cc_kbdec k))) (win_q (Qmax_b kq (cc_kbdec k)))
+                     (passb k gts) st (map row_ids obs)
+          && nodupb (all_ids (map row_ids obs))
       end
-  | _, _ => true
+  | _, _, _ => true
   end.
 
-Definition check_clump (k : ccase) : bool * bool :=
-  (res_eqb (list_eqb orow_eqb) (model_clump k) (cc_obs k), holds_clump k).
+Definition agree_clump (k : ccase) : bool :=
+  res_eqb (list_eqb orow_eqb) (model_clump k) (cc_obs k)
+  && match stats_of (cc_cfg k) with Some st => window_link (cc_kb k) st | None => true end.
+
+Definition check_clump (k : ccase) : bool * bool := (agree_clump k, holds_clump k).
 
 (* ---- ComputeLD --------------------------------------------------------------- *)
 
 Record dcase := mkd {
   d_cand : list (Z * Z); d_idx : list (Z * Z); d_exact : bool;
   d_obs : res (option Q);           (* the returned r2 as the exact value of the float; None = nan *)
-  d_roots : list Q                  (* Exact: the frequencies f00 that ComputeExactLD evaluated (recorded at _CalcLDStats) *)
+  d_roots : list Q;                 (* Exact: the frequencies f00 that ComputeExactLD evaluated (recorded at _CalcLDStats) *)
+  d_allroots : list Q               (* Exact: all real roots the solver handed to _CalcBestRoot, admissible or not *)
 }.
 
 Definition Qabs_le (a b tol : Q) : bool := Qle_bool (a - b) tol && Qle_bool (b - a) tol.
@@ -147,7 +200,9 @@ Definition in01 (v : Q) : bool := Qle_bool 0 v && Qle_bool v 1.
 
 (* the cubic is not solved in the model: the root the implementation used is checked instead -
    it lies in the admissible interval (+- 1e-5 as in _CalcBestRoot), it is a root of the model's
-   cubic up to 1e-9 * n, and the returned r2 is the model's r2 formula at that root (6 decimals) *)
+   cubic up to 1e-9 * n, and the returned r2 is the model's r2 formula at that root (6 decimals);
+   and every number the solver presents as a real root, admissible or not, is a root of the
+   model's cubic up to 1e-9 * n *)
 Definition tol_root : Q := 1 # 1000000000.
 Definition slack_hap : Q := 1 # 100000.
 Definition root_ok (t : tab) (o f : Q) : bool :=
@@ -160,10 +215,11 @@ Definition agree_computeld (d : dcase) : bool :=
   | EX_nan, Ok None => true
   | EX_val v, Ok (Some o) => Qabs_le o v (if d_exact d then tol_exact else tol_pearson)
   | EX_root t, Ok (Some o) =>
-      match d_roots d with
-      | [] => Qeq_bool o 0                    (* no root in range: best_rsquared stays 0 *)
-      | fs => existsb (root_ok t o) fs
-      end
+      forallb (fun f => Qabs_le (cubic t f) 0 (tol_root * t_n t)) (d_allroots d)
+      && match d_roots d with
+         | [] => Qeq_bool o 0                    (* no root in range: best_rsquared stays 0 *)
+         | fs => existsb (root_ok t o) fs
+         end
   | _, _ => false
   end.
 
